@@ -161,25 +161,24 @@ class _Quiet(_Relabel):
         pass
 
 
+from rules._imports import import_names as _import_names, registration_nodes as _registration_nodes
+
+
 def _registered(fn: Function, cfg: CFG) -> Dict[str, Set[int]]:
+    from sa.match import Locals as _Locals
+
+    L = _Locals(fn.node)
     out: Dict[str, Set[int]] = {}
     for n in cfg.nodes:
-        if n.kind != "stmt" or n.ast is None:
+        if n.kind not in ("stmt",) or n.ast is None:
             continue
         for c in calls_in(n.ast):
             if not isinstance(c.func, ast.Attribute):
                 continue
             a = c.func.attr
-            if a in ("add_import", "add_conditional_import") and len(c.args) >= 2:
-                nm = const_str(c.args[-1]) if a == "add_conditional_import" else const_str(c.args[1])
-                if nm:
-                    out.setdefault(nm, set()).add(n.id)
-            elif a == "add_import":
-                for k in c.keywords:
-                    if k.arg == "name" and const_str(k.value):
-                        out.setdefault(const_str(k.value) or "", set()).add(n.id)
-            elif a == "add_plain_import" and c.args and const_str(c.args[0]):
-                out.setdefault(const_str(c.args[0]) or "", set()).add(n.id)
+            if a in ("add_import", "add_conditional_import", "add_plain_import"):
+                for nm in _import_names(c, L):
+                    out.setdefault(nm, set()).update(_registration_nodes(cfg, n, c))
             elif a in TYPING_HELPER and c.args:
                 t = template_of(c.args[0], fn.node)
                 txt = t.text if t is not None else ""
@@ -409,7 +408,7 @@ def _indent_balance(fn: Function, rep: Report) -> None:
                         d += 1
                     elif c.func.attr == "dedent":
                         d -= 1
-                elif isinstance(c.func, ast.Attribute) and c.func.attr in NET_EFFECT and any(norm(x) == w for x in c.args):
+                elif isinstance(c.func, ast.Attribute) and c.func.attr in NET_EFFECT and any(norm(x) == w for x in list(c.args) + [k.value for k in c.keywords]):
                     d += NET_EFFECT[c.func.attr]  # callee summary: leaves the shared writer at +n
             return (max(-4, min(8, d)),)
 
@@ -450,7 +449,16 @@ def _models_emitter_rules(repo: Repo, rep: Report) -> None:
     rep.require(len(naming) >= 2 and len(gens) >= 1, "R1.8: naming assignments / _generate_model_file call not found in ModelsEmitter.emit")
     if naming and gens:
         # the naming loop finishes before any file is generated: the naming loop header dominates the emit call and is not reachable from it
-        nl = [n for n in cfg.nodes if n.kind == "iter" and "schemas_to_name_decollision" in norm(n.ast)]
+        from sa.model import parent as _parent
+
+        def _enclosing_loop(x: ast.AST):
+            p = _parent(x)
+            while p is not None and not isinstance(p, (ast.For, ast.While)):
+                p = _parent(p)
+            return p
+
+        naming_loops = {id(_enclosing_loop(n.ast)): _enclosing_loop(n.ast) for n in naming if _enclosing_loop(n.ast) is not None}
+        nl = [n for n in cfg.nodes if n.kind == "iter" and any(n.stmt is lp for lp in naming_loops.values())]
         ok = bool(nl) and all(nl[0].id in dom[g.id] and nl[0].id not in cfg.reachable(g.id) for g in gens)
         if ok:
             rep.ok("R1.8", f"{emit.module.relpath}:ModelsEmitter.emit naming before emission", "the de-collision loop is complete before the first model file is generated", emit.loc())
@@ -465,9 +473,12 @@ def _models_emitter_rules(repo: Repo, rep: Report) -> None:
         rep.violation("R1.8", f"{gm.module.relpath}:_generate_model_file refuses unnamed schemas", f"{gm.fq}|no-name-guard", "a model file can be written without de-collided names", gm.loc())
     # file filter consistency
     flt = None
-    for q, f in emit.module.functions.items():
-        if q.endswith("emit.<locals>.should_generate_file"):
-            flt = f
+    nested = {f.name: f for q, f in emit.module.functions.items() if ".emit.<locals>." in q or q.startswith("ModelsEmitter.emit.")}
+    used_as_filter = {c.func.id for n in own_nodes(emit.node) if isinstance(n, (ast.DictComp, ast.ListComp, ast.SetComp, ast.GeneratorExp))
+                      for g in n.generators for t in g.ifs for c in ast.walk(t) if isinstance(c, ast.Call) and isinstance(c.func, ast.Name)}
+    for name in sorted(used_as_filter):
+        if name in nested:
+            flt = nested[name]
     sub = f"{emit.module.relpath}:ModelsEmitter.emit file filter vs exported registry"
     if flt is None:
         rep.ok("R1.8", sub, "no file filter between naming and emission", emit.loc())
@@ -476,8 +487,12 @@ def _models_emitter_rules(repo: Repo, rep: Report) -> None:
     # is the filtered dict written back to the registries the exports/imports are rendered from?
     reassigned = False
     for n in own_nodes(emit.node):
-        if isinstance(n, ast.Assign) and norm(n.targets[0]) in ("self.parsed_schemas", "self.context.parsed_schemas") and "filtered" in norm(n.value):
-            reassigned = True
+        if isinstance(n, ast.Assign) and norm(n.targets[0]) in ("self.parsed_schemas", "self.context.parsed_schemas"):
+            from sa.match import Locals as _Locals
+
+            vi = _Locals(emit.node).inline(n.value)
+            if any(isinstance(c, ast.Call) and isinstance(c.func, ast.Name) and c.func.id == flt.name for c in ast.walk(vi)):
+                reassigned = True
     if not sat:
         rep.ok("R1.8", sub, f"the filter cannot reject a named schema: {why}", flt.loc())
     elif reassigned:
@@ -489,31 +504,50 @@ def _models_emitter_rules(repo: Repo, rep: Report) -> None:
 
 
 def _filter_satisfiable(flt: Function) -> Tuple[bool, str]:
-    """Can `is_basic_primitive_artifact` be true for a schema with a non-empty name?  Only the constraints on `schema.name`
-    are interpreted: `<name-expr>.lower() in [consts]` together with `<name>.endswith(s)`."""
-    conj: List[ast.AST] = []
-    for n in own_nodes(flt.node):
-        if isinstance(n, ast.Assign) and norm(n.targets[0]) == "is_basic_primitive_artifact" and isinstance(n.value, ast.BoolOp) and isinstance(n.value.op, ast.And):
-            conj = list(n.value.values)
+    """Can the filter reject a schema with a non-empty name?  Only the constraints on `<schema>.name` are interpreted:
+    `<name-expr>.lower() in [consts]` together with `<name>.endswith(s)`."""
+    from sa.match import Locals as _Locals
+
+    L = _Locals(flt.node)
+    if not L.params:
+        return True, "filter has no parameter"
+    P = L.params[0]
+    pname = f"{P}.name"
     rets_false = [n for n in own_nodes(flt.node) if isinstance(n, ast.If) and any(isinstance(s, ast.Return) and isinstance(s.value, ast.Constant) and s.value.value is False for s in n.body)]
-    other = [n for n in rets_false if norm(n.test) not in ("is_basic_primitive_artifact", "not schema.name or not schema.name.strip()")]
+
+    def only_about_name(t: ast.AST) -> bool:
+        """`not s.name or not s.name.strip()` / `not (s.name and s.name.strip())`: mentions nothing but the name and constants-free string methods"""
+        ti = L.inline(t, stop=(P,))
+        attrs = {x.attr for x in ast.walk(ti) if isinstance(x, ast.Attribute)}
+        has_const = any(isinstance(x, ast.Constant) for x in ast.walk(ti))
+        return attrs <= {"name", "strip"} and "name" in attrs and not has_const and set(n for n in (y.id for y in ast.walk(ti) if isinstance(y, ast.Name))) <= {P}
+
+    artifact_tests = [n for n in rets_false if not only_about_name(n.test)]
+    conj: List[ast.AST] = []
+    other = []
+    for n in artifact_tests:
+        ti = L.inline(n.test, stop=(P,))
+        if isinstance(ti, ast.BoolOp) and isinstance(ti.op, ast.And) and not conj:
+            conj = list(ti.values)
+        else:
+            other.append(n)
     if other:
         return True, f"additional rejecting condition `{norm(other[0].test)[:60]}`"
     if not conj:
-        return (False, "no rejecting condition besides unnamed schemas") if not any(norm(n.test) == "is_basic_primitive_artifact" for n in rets_false) else (True, "condition not understood")
+        return False, "no rejecting condition besides unnamed schemas"
     members: Optional[List[str]] = None
     suffix: Optional[str] = None
     lower_on_plain_name = False
     for c in conj:
         if isinstance(c, ast.Compare) and isinstance(c.ops[0], ast.In) and isinstance(c.comparators[0], (ast.List, ast.Tuple, ast.Set)):
             vals = [const_str(e) for e in c.comparators[0].elts]
-            if all(v is not None for v in vals) and "schema.name" in norm(c.left):
+            if all(v is not None for v in vals) and pname in norm(c.left):
                 members = vals  # type: ignore[assignment]
-                lower_on_plain_name = norm(c.left) == "schema.name.lower()"
-        if isinstance(c, ast.Call) and isinstance(c.func, ast.Attribute) and c.func.attr == "endswith" and norm(c.func.value) == "schema.name" and c.args and const_str(c.args[0]):
+                lower_on_plain_name = norm(c.left) == f"{pname}.lower()"
+        if isinstance(c, ast.Call) and isinstance(c.func, ast.Attribute) and c.func.attr == "endswith" and norm(c.func.value) == pname and c.args and const_str(c.args[0]):
             suffix = const_str(c.args[0])
     if members is not None and suffix is not None and lower_on_plain_name:
         if not any(m.endswith(suffix.lower()) for m in members):
-            return False, f"`schema.name.lower() in {members}` and `schema.name.endswith({suffix!r})` contradict each other (no listed name ends with {suffix!r})"
+            return False, f"`<schema>.name.lower() in {members}` and `<schema>.name.endswith({suffix!r})` contradict each other (no listed name ends with {suffix!r})"
         return True, f"a name in {members} ends with {suffix!r}"
-    return True, "the name constraints no longer contradict each other (" + "; ".join(norm(c)[:50] for c in conj if "schema.name" in norm(c)) + ")"
+    return True, "the name constraints no longer contradict each other (" + "; ".join(norm(c)[:50].replace(P + ".", "<schema>.") for c in conj if pname in norm(c)) + ")"
